@@ -186,6 +186,11 @@ def x_case(case, common, out):
             "float-column": dx.from_pandas(pdf[["kf", "v"]].rename(columns={"kf": "k"}), npartitions=nin2, sort=False),
             "int-index-by-name": dx.from_pandas(pdf[["ki", "v"]].set_index("ki").rename_axis("k"), npartitions=nin2, sort=False),
             "float-index-by-name": dx.from_pandas(pdf[["kf", "v"]].set_index("kf").rename_axis("k"), npartitions=nin2, sort=False),
+            "float32-column": dx.from_pandas(pdf[["kf", "v"]].rename(columns={"kf": "k"}).astype({"k": "float32"}), npartitions=nin2, sort=False),
+            "nullable-Int64-column": dx.from_pandas(pdf[["ki", "v"]].rename(columns={"ki": "k"}).astype({"k": "Int64"}), npartitions=nin2, sort=False),
+            "UInt8-column": dx.from_pandas(pdf[["ki", "v"]].rename(columns={"ki": "k"}).astype({"k": "UInt8"}), npartitions=nin2, sort=False),
+            # the index carries the NAME of the key column but other values: the column is the key
+            "int-column-under-equally-named-index": dx.from_pandas(pdf[["ki", "v"]].rename(columns={"ki": "k"}).set_axis(pd.Index((np.arange(len(pdf)) * 5) % 13, name="k")), npartitions=nin2, sort=False),
         }
         try:
             pa = [p.compute() for p in a.shuffle("k", npartitions=nout).to_delayed()]
@@ -202,7 +207,7 @@ def x_case(case, common, out):
             except Exception as ex:
                 viol(out, "C12.R.cross:raises", f"{sig}|{vname}", f"{type(ex).__name__}: {str(ex)[:160]}", replay)
                 continue
-            bump(out, "C12.R.cross:same-key-same-partition-across-dtypes", f"{sig}|{vname}", rule="int column vs float column / int index / float index holding equal key values, equal npartitions")
+            bump(out, "C12.R.cross:same-key-same-partition-across-dtypes", f"{sig}|{vname}", rule="int column vs float64 / float32 / nullable Int64 / UInt8 column, int index, float index, column under an equally named index holding equal key values, equal npartitions")
             for pi, p in enumerate(pb):
                 ks = p.k.tolist() if "k" in p.columns else p.index.tolist()
                 bad = [k for k in ks if place.get(float(k), pi) != pi]
